@@ -17,7 +17,7 @@ ID = "C13"
 LEVEL = "exploration"
 TECHNIQUE = "generated populations and change scripts (Hypothesis) vs aggregates recomputed from agent snapshots"
 RULE = ("cases = 1-3 agent types x up to 4 states x 0-6 agents with Integer and Double properties (negative, zero, equal, "
-        "distinct) plus a String property, a script of state/property changes over 2-6 steps, and a selection of agents, states, "
+        "distinct) plus a String property, a script of state/property changes and deletions (in act / end_round) over 2-6 steps, optionally three scenarios over two managers with different populations and run specs, and a selection of agents, states (also never-occurring ones), "
         "properties and aggregate types; Model.statistics() and the df/dict/json of run_scenarios are compared cell by cell with "
         "count / fsum / min / max / mean over the snapshot (0 where a cell is empty at that time). non-trivial = some cell holds "
         ">= 2 agents with different values of a property; distinct by case")
